@@ -36,6 +36,9 @@ type Case struct {
 	KeepTasks    bool
 	KillRefused  bool   // the master refuses the KILL calls (HTTP 503): the destroy cannot be honoured
 	PreFault     string // "" | executor | task-failed : a task of the environment fails before the destroy is requested
+	KillRefusedFirst bool // only the first KILL call is refused: the destroy still cannot be honoured
+	HookTask     string // "" | ok | trigger-error : a hook task triggered at DESTROY; with trigger-error its executor answers the trigger with an error
+	LeaveFail    bool   // Target DEPLOYED only: a critical call at leave_DEPLOYED fails during the teardown (logged, not a reason to keep anything)
 	PreCleanup   bool   // before the destroy, CleanupTasks is requested with the ids of the environment's own (owned) tasks: a no-op
 	// ... or a failing creation
 	FailStage string // "" | template | detector | deploy-fail | deploy-noagent | configure | hook (a critical hook fails at before_CONFIGURE)
@@ -94,6 +97,13 @@ func run(c Case) (res vh.Result) {
 	for i, h := range c.Hooks {
 		fmt.Fprintf(&sb, "  - name: dh%d\n    call:\n      func: verifprobe.P(\"destroyhook:%d\")\n      trigger: %s%+d\n      timeout: 5s\n      critical: false\n", i, i, h.Trigger, h.Weight)
 	}
+	hookCls := ""
+	if c.HookTask != "" {
+		hookCls = fmt.Sprintf("dk%dx%d", os.Getpid(), n)
+		idx[hookCls] = 1000
+		fmt.Fprintf(&sb, "  - name: dhook\n    constraints:\n      - attribute: machine_id\n        value: hostc\n    task:\n      load: %s\n      trigger: DESTROY\n      timeout: 3s\n      critical: false\n", hookCls)
+		w.WriteTask(hookCls, simworld.TaskClassYAML(hookCls, "hook", ""))
+	}
 	if c.HookFault {
 		ev := "START_ACTIVITY"
 		if c.FailStage == "hook" {
@@ -101,6 +111,9 @@ func run(c Case) (res vh.Result) {
 		}
 		fmt.Fprintf(&sb, "  - name: late\n    call:\n      func: verifprobe.P(\"late\")\n      trigger: before_%s%+d\n      await: before_%s%+d\n      timeout: 5s\n      critical: false\n", ev, c.LateW, ev, c.AwaitW)
 		fmt.Fprintf(&sb, "  - name: bad\n    call:\n      func: verifprobe.P(\"bad\")\n      trigger: before_%s%+d\n      timeout: 5s\n      critical: true\n", ev, c.FailW)
+	}
+	if c.LeaveFail && c.Target == "DEPLOYED" {
+		fmt.Fprintf(&sb, "  - name: leavebad\n    call:\n      func: verifprobe.P(\"leavebad\")\n      trigger: leave_DEPLOYED\n      timeout: 5s\n      critical: true\n")
 	}
 	if c.PendingCall {
 		fmt.Fprintf(&sb, "  - name: pending\n    call:\n      func: verifprobe.P(\"pending\")\n      trigger: after_CONFIGURE\n      await: after_RESET\n      timeout: 5s\n      critical: false\n")
@@ -136,11 +149,25 @@ func run(c Case) (res vh.Result) {
 	}
 
 	var mu sync.Mutex
+	refusedOne := false
+	leaveArmed, leaveFailed := false, 0 // the leave_DEPLOYED hook fails only once the destroy was requested
 	destroyProbeViolation := ""
 	envId := ""
 	w.OnProbe = func(p simworld.ProbeRec) simworld.ProbeReply {
 		if p.Arg == "bad" {
 			return simworld.ProbeReply{Fail: "injected failure of a critical hook"}
+		}
+		if p.Arg == "leavebad" {
+			mu.Lock()
+			armed := leaveArmed
+			if armed {
+				leaveFailed++
+			}
+			mu.Unlock()
+			if armed {
+				return simworld.ProbeReply{Fail: "injected failure of a critical hook at leave_DEPLOYED"}
+			}
+			return simworld.ProbeReply{}
 		}
 		if !strings.HasPrefix(p.Arg, "destroyhook:") {
 			return simworld.ProbeReply{}
@@ -149,6 +176,9 @@ func run(c Case) (res vh.Result) {
 		ts, err := w.TasksAPI()
 		if err == nil {
 			for _, t := range ts {
+				if st := w.Master.Task(t.TaskId); st != nil && hookCls != "" && simworld.ClassOf(st) == hookCls {
+					continue // the DESTROY hook task itself is released after the hooks ran
+				}
 				if t.Locked {
 					ctx, cancel := simworld.Ctx(5 * time.Second)
 					gt, err := w.Cli.GetTask(ctx, &pb.GetTaskRequest{TaskId: t.TaskId})
@@ -188,9 +218,33 @@ func run(c Case) (res vh.Result) {
 		if mine(t) && c.KillRefused {
 			return simworld.KillPlan{RefuseHTTP: 503}
 		}
+		if mine(t) && c.KillRefusedFirst {
+			mu.Lock()
+			first := !refusedOne
+			refusedOne = true
+			mu.Unlock()
+			if first {
+				return simworld.KillPlan{RefuseHTTP: 400}
+			}
+		}
 		return simworld.KillPlan{}
 	}
 
+	w.Master.OnTrigger = func(t *simworld.SimTask, cmd *simworld.Command) simworld.Reply {
+		if simworld.ClassOf(t) != hookCls || hookCls == "" {
+			return simworld.Reply{}
+		}
+		if c.HookTask == "trigger-error" {
+			return simworld.Reply{Error: "simulated: the hook could not be started"}
+		}
+		id := t.ID
+		return simworld.Reply{Then: func() {
+			go func() {
+				time.Sleep(50 * time.Millisecond)
+				simworld.AnnounceBasicTaskTerminated(w.Master, id, 0, true)
+			}()
+		}}
+	}
 	goBefore := countCallGoroutines(w)
 	taskMark := len(w.Master.Tasks())
 	env, cerr := w.NewEnv(wf, nil, 40*time.Second)
@@ -333,10 +387,17 @@ func run(c Case) (res vh.Result) {
 	}
 	if c.PreFault != "" {
 		victim := myTasks()[0]
+		if c.PreFault == "hooktask-failed" {
+			for _, t := range myTasks() {
+				if simworld.ClassOf(t) == hookCls {
+					victim = t
+				}
+			}
+		}
 		switch c.PreFault {
 		case "executor":
 			w.Master.FailExecutor(victim.AgentID, victim.ExecID)
-		case "task-failed":
+		case "task-failed", "hooktask-failed":
 			r := mesos.REASON_EXECUTOR_TERMINATED
 			w.Master.SendUpdate(victim.ID, mesos.TASK_FAILED, &r, mesos.SOURCE_EXECUTOR)
 		}
@@ -369,6 +430,9 @@ func run(c Case) (res vh.Result) {
 	if c.PendingCall {
 		res.Classes = append(res.Classes, "pending-call")
 	}
+	if c.HookTask != "" {
+		res.Classes = append(res.Classes, "destroy-hook-task:"+c.HookTask)
+	}
 	if c.PreCleanup {
 		res.Classes = append(res.Classes, "cleanup-named-owned-tasks-before")
 		ctx, cancel := simworld.Ctx(30 * time.Second)
@@ -382,6 +446,9 @@ func run(c Case) (res vh.Result) {
 		}
 	}
 	killMark := len(w.Master.Calls())
+	mu.Lock()
+	leaveArmed = true
+	mu.Unlock()
 	_, derr := w.Destroy(envId, c.Force, c.AllowRunning, c.KeepTasks, 60*time.Second)
 	steps = append(steps, fmt.Sprintf("destroy from %s force=%v allowRunning=%v keep=%v killRefused=%v -> err=%v", c.Target, c.Force, c.AllowRunning, c.KeepTasks, c.KillRefused, derr))
 	if crash := w.CoreCrash(); crash != "" {
@@ -397,11 +464,30 @@ func run(c Case) (res vh.Result) {
 		// nothing had to be killed (every task was already gone): success is the right answer
 		res.Classes = append(res.Classes, "kill-refused-but-nothing-to-kill")
 	}
+	if c.KillRefusedFirst && !c.KeepTasks && killCalls >= 1 {
+		res.Classes = append(res.Classes, "first-kill-refused")
+		if derr == nil {
+			return fail("destroy-success-although-a-kill-was-refused", "the first of %d KILL calls was refused by the master, yet DestroyEnvironment reported success", killCalls)
+		}
+		return
+	}
 	if c.KillRefused && !c.KeepTasks && killCalls > 0 {
 		if derr == nil {
 			return fail("destroy-success-although-kills-refused", "every KILL call was refused by the master, yet DestroyEnvironment reported success")
 		}
 		return
+	}
+	mu.Lock()
+	lf := leaveFailed
+	mu.Unlock()
+	if lf > 0 {
+		res.Classes = append(res.Classes, "leave-hook-failed-during-teardown")
+	}
+	if derr != nil && (c.HookTask == "trigger-error" || lf > 0) {
+		// the hook could not be triggered: that the request reports this as an error although the environment is gone is not
+		// claimed either way; what is left behind is judged below
+		res.Classes = append(res.Classes, "destroy-reported-hook-error")
+		derr = nil
 	}
 	if derr != nil {
 		// a non-forced destroy of a RUNNING environment without allowInRunningState is forced by the server; an error here means it could not be honoured
@@ -453,6 +539,9 @@ func run(c Case) (res vh.Result) {
 	}
 	// a new environment on the same hosts can be created
 	w.Master.OnKill = nil
+	mu.Lock()
+	leaveArmed = false
+	mu.Unlock()
 	env2, err := w.NewEnv(wf, nil, 40*time.Second)
 	if err != nil {
 		return fail("cannot-recreate", "after the destroy a new environment of the same workflow cannot be created: %v", err)
@@ -489,6 +578,14 @@ func gen(t *rapid.T) Case {
 	c.KillRefused = rapid.IntRange(0, 9).Draw(t, "killRefused") == 0
 	c.PreFault = rapid.SampledFrom([]string{"", "", "", "executor", "task-failed"}).Draw(t, "preFault")
 	c.PreCleanup = rapid.IntRange(0, 3).Draw(t, "preCleanup") == 0
+	if !c.KillRefused && rapid.IntRange(0, 9).Draw(t, "killRefusedFirst") == 0 {
+		c.KillRefusedFirst = true
+	}
+	c.HookTask = rapid.SampledFrom([]string{"", "", "", "ok", "trigger-error"}).Draw(t, "hookTask")
+	c.LeaveFail = c.Target == "DEPLOYED" && rapid.Bool().Draw(t, "leaveFail")
+	if c.HookTask != "" && c.PreFault == "task-failed" && rapid.Bool().Draw(t, "hookTaskIsTheVictim") {
+		c.PreFault = "hooktask-failed"
+	}
 	if c.Target == "ERROR" && rapid.Bool().Draw(t, "hookFault") {
 		c.HookFault = true
 		c.LateW = rapid.IntRange(-2, 1).Draw(t, "lateW")
@@ -516,6 +613,13 @@ func TestFixed(t *testing.T) {
 	vh.Fixed(t, prop, "failed-creation-critical-hook-with-call-awaited-later", Case{NTasks: 2, FailStage: "hook", HookFault: true, LateW: 0, FailW: 0, AwaitW: 3}, vh.Confirmed(run))
 	vh.Fixed(t, prop, "destroy-after-critical-hook-failed-with-call-awaited-later", Case{NTasks: 2, Target: "ERROR", HookFault: true, LateW: -1, FailW: 1, AwaitW: 2, PendingCall: true}, vh.Confirmed(run))
 	vh.Fixed(t, prop, "cleanup-naming-owned-tasks-then-destroy", Case{NTasks: 2, Target: "CONFIGURED", PreCleanup: true}, vh.Confirmed(run))
+	vh.Fixed(t, prop, "first-kill-refused-the-others-accepted", Case{NTasks: 3, Target: "CONFIGURED", KillRefusedFirst: true}, vh.Confirmed(run))
+	vh.Fixed(t, prop, "destroy-hook-task", Case{NTasks: 2, Target: "CONFIGURED", HookTask: "ok"}, vh.Confirmed(run))
+	vh.Fixed(t, prop, "destroy-hook-task-whose-trigger-fails", Case{NTasks: 2, Target: "RUNNING", AllowRunning: true, HookTask: "trigger-error"}, vh.Confirmed(run))
+	vh.Fixed(t, prop, "leave-hook-fails-during-teardown", Case{NTasks: 2, Target: "DEPLOYED", LeaveFail: true}, vh.Confirmed(run))
+	vh.Fixed(t, prop, "destroy-hook-task-with-a-probe-hook-at-a-later-weight", Case{NTasks: 1, Target: "CONFIGURED", Force: true, AllowRunning: true, HookTask: "ok",
+		Hooks: []DestroyHook{{"DESTROY", 2}, {"DESTROY", 0}}}, vh.Confirmed(run))
+	vh.Fixed(t, prop, "destroy-hook-task-died-before-the-destroy", Case{NTasks: 2, Target: "DEPLOYED", Force: true, PendingCall: true, HookTask: "ok", PreFault: "hooktask-failed"}, vh.Confirmed(run))
 	vh.Fixed(t, prop, "keep-tasks", Case{NTasks: 2, Target: "CONFIGURED", KeepTasks: true}, vh.Confirmed(run))
 	vh.Fixed(t, prop, "executor-lost-then-forced-destroy-keeping-tasks", Case{NTasks: 3, Target: "RUNNING", Force: true, KeepTasks: true, PreFault: "executor"}, vh.Confirmed(run))
 	vh.Fixed(t, prop, "task-failed-then-destroy", Case{NTasks: 2, Target: "CONFIGURED", PreFault: "task-failed"}, vh.Confirmed(run))
